@@ -146,6 +146,8 @@ def run_property(prop, tier, seed, rebaseline=False, only_units=None):
         for h in meta['harnesses']:
             if prop not in h.get('properties', [prop]):
                 continue
+            if h.get('tier') == 'off':
+                continue   # kept as source only (CBMC does not finish it); listed in harnesses.json with the reason
             if tier == 'quick' and h.get('tier', 'quick') != 'quick':
                 continue
             hs.append(h)
